@@ -531,8 +531,9 @@ package log
 //@   modifies map(tagRegistry)
 //@   panics_iff[C18,C16:guard] global.init || !valid_tag(tag)
 //@   ensures_on_panic[C18,C16:registry-unchanged] keys(tagRegistry) == old(keys(tagRegistry)) && vals(tagRegistry) == old(vals(tagRegistry))
-//@   ensures[C18:get] old(has(tagRegistry, tag)) ==> result == old(tagRegistry[tag]) && keys(tagRegistry) == old(keys(tagRegistry)) && vals(tagRegistry) == old(vals(tagRegistry))
-//@   ensures[C18:create] !old(has(tagRegistry, tag)) ==> fresh(result) && result.tag == tag && result.logger == nil && keys(tagRegistry) == upd(old(keys(tagRegistry)), tag, true) && vals(tagRegistry) == upd(old(vals(tagRegistry)), tag, result)
+//@   ensures[C02,C18:get] old(has(tagRegistry, tag)) ==> result == old(tagRegistry[tag]) && keys(tagRegistry) == old(keys(tagRegistry)) && vals(tagRegistry) == old(vals(tagRegistry))
+//@   ensures[C02,C16,C18:create] !old(has(tagRegistry, tag)) ==> fresh(result) && result.tag == tag && result.logger == nil && keys(tagRegistry) == upd(old(keys(tagRegistry)), tag, true) && vals(tagRegistry) == upd(old(vals(tagRegistry)), tag, result)
+//@   ensures[C02,C16:a-tag-object-is-registered-under-its-own-name] old(regTagged()) ==> regTagged()
 //@   replay tag = tag; init = global.init
 
 //@ func GetLogger
